@@ -59,10 +59,12 @@ impl UpdateGenerator for MarkdownUpdateGenerator {
             match token {
                 MarkdownToken::Line(_, line) => updated.push_str(&line.assure_newline()),
                 MarkdownToken::DocumentConfig(config) => {
-                    let config = config.join_newline();
+                    // line by line: an empty front-matter has no line to write
                     updated.push_str("---\n");
-                    updated.push_str(&config);
-                    updated.push_str("\n---\n");
+                    for (_, line) in &config {
+                        updated.push_str(&line.assure_newline());
+                    }
+                    updated.push_str("---\n");
                 }
                 MarkdownToken::VerbatimCodeBlock {
                     starting_line_number: _,
